@@ -34,7 +34,7 @@ func truncate(s string, n int) string {
 	return s
 }
 
-var c17Families = []string{"lr", "lr2", "expr", "expr4", "mutual", "mutual3", "hidden", "brackets", "seplist", "rightrec", "exprparen", "tower4", "tower5", "tower6", "hiddenmany", "hiddensepby", "hiddenopts"}
+var c17Families = []string{"lr", "lr2", "expr", "expr4", "mutual", "mutual3", "hidden", "brackets", "seplist", "rightrec", "exprparen", "tower4", "tower5", "tower6", "hiddenmany", "hiddensepby", "hiddenopts", "hidden2", "hiddenempties", "calls", "kwexpr"}
 
 var towerOps = "%^&|+*"
 
@@ -155,6 +155,32 @@ func c17Parser(family string, variant int, limit *int) parsley.Parser {
 		var h parser.Func
 		h = memo(alt(combinator.SeqOf(combinator.Optional(r('x')), &h, r('b')), r('a')))
 		return &h
+	case "hidden2", "hiddenempties": // H -> p1 p2 H b | a with two SEPARATE nullable elements in front
+		var h parser.Func
+		if family == "hidden2" {
+			h = memo(alt(combinator.SeqOf(combinator.Optional(r('x')), combinator.Optional(r('y')), &h, r('b')), r('a')))
+		} else {
+			h = memo(alt(combinator.SeqOf(parser.Empty(), parser.Empty(), &h, r('b')), r('a')))
+		}
+		return &h
+	case "kwexpr": // expr -> term and expr | term or expr | term ; term -> ( expr ) | x ; the keyword parsers register their word in the context every time they run
+		kw := func(w string) parsley.Parser {
+			p := text.Trim(terminal.Word(w, w, w))
+			return parser.Func(func(ctx *parsley.Context, l data.IntMap, pos parsley.Pos) (parsley.Node, data.IntSet, parsley.Error) {
+				ctx.RegisterKeywords(w)
+				return p.Parse(ctx, l, pos)
+			})
+		}
+		var expr parser.Func
+		term := memo(first(combinator.SeqOf(text.Trim(r('(')), &expr, text.Trim(r(')'))), text.Trim(r('x'))))
+		expr = memo(combinator.Any(combinator.SeqOf(term, kw("and"), &expr), combinator.SeqOf(term, kw("or"), &expr), term))
+		return &expr
+	case "calls": // prog -> (call ';')* ; call -> f ( expr? ) ; expr -> term (+ expr)? written with SeqFirstOrAll
+		var expr parser.Func
+		term := first(r('x'), r('y'))
+		expr = memo(combinator.SeqFirstOrAll(term, r('+'), &expr))
+		call := wrap(combinator.SeqOf(r('f'), r('('), combinator.Optional(&expr), r(')')))
+		return combinator.Many(combinator.SeqOf(call, r(';')))
 	case "hiddenmany", "hiddensepby", "hiddenopts": // H -> prefix H b | a with a composite nullable prefix
 		var h parser.Func
 		var prefix parsley.Parser
@@ -277,8 +303,36 @@ func c17ValidInput(family string, n int, shape int) string {
 			return "a" + strings.Repeat("b", n-1)
 		}
 		return "xa" + strings.Repeat("b", n-2)
-	case "hiddenmany", "hiddensepby", "hiddenopts":
+	case "hiddenmany", "hiddensepby", "hiddenopts", "hidden2", "hiddenempties":
 		return "a" + strings.Repeat("b", n-1) // the prefix matches nothing
+	case "kwexpr":
+		s := "x"
+		for i := 0; len(s) < n; i++ {
+			op := []string{" and x", " or x", " and (x or x)"}[(i+shape)%3]
+			if shape%2 == 0 {
+				s = "(" + s + op + ")"
+			} else {
+				s = "(x" + []string{" and ", " or "}[(i+shape)%2] + s + ")" // nesting on the right: (x and (x or ( ... )))
+			}
+		}
+		return s
+	case "calls":
+		var sb strings.Builder
+		for i := 0; sb.Len() < n; i++ {
+			switch (i + shape) % 3 {
+			case 0:
+				sb.WriteString("f();")
+			case 1:
+				sb.WriteString("f(x);")
+			default:
+				sb.WriteString("f(x+y+x);")
+			}
+			if shape%4 == 0 {
+				sb.Reset()
+				sb.WriteString(strings.Repeat("f();", i+1)) // only calls without an argument
+			}
+		}
+		return sb.String()
 	case "brackets":
 		k := n / 2
 		o, c := "(", ")"
